@@ -4,9 +4,10 @@ descriptors, patch statements, the verify program and its tables).  The hand-wri
 in coq/theories/Config.v executes this data; the theorems of Properties/C20.v are stated over it.
 
 Every fragment has ONE strict expected shape.  Anything else raises TranslateError (a broken tie).
-When that happens and no Gen/Config.v exists yet (fresh checkout), the committed snapshot of the
-pinned tree (tools/translate_config_ref.v) is installed so that the model still builds and the
-search for a failing input can run; the error is raised all the same, so the check cannot pass.
+When that happens the committed snapshot of the pinned tree (tools/translate_config_ref.v) is
+installed as Gen/Config.v so that the model still builds (the OCaml driver is shared by all
+properties) and the search for a failing input can run; the error is raised all the same, so the
+check cannot pass.
 """
 import os
 import re
@@ -638,10 +639,10 @@ def gen():
     try:
         return generate()
     except TranslateError:
-        target = os.path.join(translate.GEN, "Config.v")
-        if not os.path.exists(target) and os.path.exists(REF):
+        # install the snapshot of the pinned tree (deterministic, whatever an earlier run left behind)
+        if os.path.exists(REF):
             os.makedirs(translate.GEN, exist_ok=True)
-            with open(REF) as f, open(target, "w") as g:
-                g.write("(* STALE: snapshot of the pinned tree installed because the translator refused the current source *)\n")
-                g.write(f.read())
+            with open(REF) as f:
+                translate.write_if_changed(os.path.join(translate.GEN, "Config.v"),
+                                           "(* STALE: snapshot of the pinned tree, installed because the translator refused the current source *)\n" + f.read())
         raise
